@@ -52,6 +52,11 @@ func (p *Plan) Simplify() []sim.Plan {
 		q.Order = 0
 		out = append(out, &q)
 	}
+	if p.Metrics {
+		q := *p
+		q.Metrics = false
+		out = append(out, &q)
+	}
 	if len(p.Conc) > 2 {
 		for i := range p.Conc {
 			q := *p
